@@ -95,10 +95,14 @@ class Log(object):
     def __init__(self):
         self.events = []
         self.seq = itertools.count(1)
+        self.total = 0
+        self.kinds = {}
 
     def add(self, _kind, **data):
         with MU:
             s = next(self.seq)
+            self.total += 1
+            self.kinds[_kind] = self.kinds.get(_kind, 0) + 1
             ev = (s, CLOCK.now if MODE[0] == "vt" else 0.0, _state().role, _kind, data)
             self.events.append(ev)
             return s
@@ -943,6 +947,7 @@ def counters():
         "clock_reads": CLOCK.reads,
         "tracked_threads": TrackedThread.created,
         "events_created": EventFactory.created,
+        "boundary_events_logged": LOG.total,
     }
 
 
